@@ -1,10 +1,4 @@
-import Lean.Data.Json
-import Bandit.Checks
-import Bandit.Gen.Chars
-import Bandit.Gen.Blacklists
-import Bandit.Gen.Registry
-import Bandit.Gen.Constants
-import Bandit.Gen.Defaults
+import Bandit.Drv.Core
 /-!
 # Line-protocol driver: one JSON request per line on stdin, one JSON answer per line on stdout.
 -/
@@ -12,142 +6,17 @@ open Lean Bandit
 
 namespace Drv
 
-def strOf (s : Str) : String := String.ofList s
-
-def getStr (j : Json) (k : String) : Except String String := j.getObjValAs? String k
-
-def parseAtom (j : Json) : Except String Atom := do
-  let arr ← j.getArr?
-  let tag ← (arr[0]?.getD Json.null).getStr?
-  match tag with
-  | "str" => return .str ((← (arr[1]?.getD Json.null).getStr?).toList)
-  | "int" =>
-    let s ← (arr[1]?.getD Json.null).getStr?
-    match s.toInt? with | some i => return .int i | none => throw s!"bad int {s}"
-  | "rat" =>
-    let a ← (arr[1]?.getD Json.null).getStr?
-    let b ← (arr[2]?.getD Json.null).getStr?
-    match a.toInt?, b.toNat? with
-    | some x, some y => return .rat x y
-    | _, _ => throw "bad rat"
-  | "flt" => return .flt ((← (arr[1]?.getD Json.null).getStr?).toList)
-  | "cplx" => return .cplx (← (arr[1]?.getD Json.null).getBool?)
-  | "bytes" =>
-    let bs ← (arr[1]?.getD Json.null).getArr?
-    return .bytes (← bs.toList.mapM fun b => b.getNat?)
-  | "bool" => return .bool (← (arr[1]?.getD Json.null).getBool?)
-  | "none" => return .none
-  | "ellipsis" => return .ellipsis
-  | _ => return .other
-
-partial def parseNode (j : Json) : Except String Node := do
-  let k ← getStr j "k"
-  let pj ← j.getObjVal? "p"
-  let pos ← match pj with
-    | .null => pure none
-    | _ => do
-      let a ← pj.getArr?
-      let g (i : Nat) : Except String Nat := (a[i]?.getD Json.null).getNat?
-      pure (some (⟨← g 0, ← g 1, ← g 2, ← g 3⟩ : Pos))
-  let aj ← j.getObjVal? "a"
-  let attrs ← match aj with
-    | .obj kvs => kvs.toList.mapM fun (key, v) => do
-        let a ← parseAtom v
-        pure (key.toList, a)
-    | _ => throw "attrs"
-  let cj ← (← j.getObjVal? "c").getArr?
-  let kids ← cj.toList.mapM fun slot => do
-    let sa ← slot.getArr?
-    let f ← (sa[0]?.getD Json.null).getStr?
-    let isl ← (sa[1]?.getD Json.null).getBool?
-    let ns ← (sa[2]?.getD Json.null).getArr?
-    let ns' ← ns.toList.mapM parseNode
-    pure (f.toList, isl, ns')
-  return Node.mk k.toList pos attrs kids
-
-partial def parseCfgVal (j : Json) : CfgVal :=
-  match j with
-  | .null => .null
-  | .bool b => .bool b
-  | .num n => .int n.mantissa   -- harness sends integers only
-  | .str s => .str s.toList
-  | .arr a => .list (a.toList.map parseCfgVal)
-  | .obj kvs => .map (kvs.toList.map fun (k, v) => (k.toList, parseCfgVal v))
-
-def rankJson (r : Rank) : Json := Json.str r.name
-
-def findingJson (f : Finding) : Json :=
-  Json.arr #[Json.str (strOf f.id), rankJson f.sev, rankJson f.conf, Json.num f.line,
-             Json.arr (f.range.map (fun n => Json.num (n : Nat))).toArray, Json.num f.col]
-
-/-- plugin settings: generated defaults overridden wholesale per `_takes_config` name -/
-def effectiveCfg (over : List (Str × CfgVal)) : PluginCfg :=
-  Gen.pluginDefaults.map fun (k, v) =>
-    match over.find? (·.1 == k) with
-    | some (_, v') => (k, v')
-    | none => (k, v)
-
-def opScan (j : Json) : Except String Json := do
-  let tree ← parseNode (← j.getObjVal? "tree")
-  let commentsJ ← (← j.getObjVal? "comments").getArr?
-  let comments ← commentsJ.toList.mapM fun c => do
-    let a ← c.getArr?
-    let ln ← (a[0]?.getD Json.null).getNat?
-    let t ← (a[1]?.getD Json.null).getStr?
-    pure (ln, t.toList)
-  let ignoreNosec := (j.getObjValAs? Bool "ignore_nosec").toOption.getD false
-  let fname := ((j.getObjValAs? String "fname").toOption.getD "x.py").toList
-  let over : List (Str × CfgVal) := match j.getObjVal? "plugin_cfg" with
-    | .ok (.obj kvs) => kvs.toList.map fun (k, v) => (k.toList, parseCfgVal v)
-    | _ => []
-  let sel : Option (List Str) := match j.getObjVal? "select" with
-    | .ok (.arr a) => some (a.toList.filterMap fun x => x.getStr?.toOption.map String.toList)
-    | _ => none
-  let lines : List Str := match j.getObjVal? "lines" with
-    | .ok (.arr a) => a.toList.filterMap fun x => x.getStr?.toOption.map String.toList
-    | _ => []
-  let isStdin := (j.getObjValAs? Bool "stdin").toOption.getD false
-  let nm : NosecMap := if ignoreNosec then [] else
-    comments.map fun (ln, t) => (ln, Nosec.parse Gen.charClasses Gen.registry t)
-  let keep : Str → Bool := match sel with
-    | some s => fun i => s.contains i
-    | none => fun _ => true
-  let checks := testSet (effectiveCfg over) fname Gen.blTables keep
-  let es := scanFile checks { root := tree, nosec := nm, lines := lines, isStdin := isStdin }
-  return Json.mkObj [
-    ("findings", Json.arr ((findingsOf es).map findingJson).toArray),
-    ("nosec", Json.num (nosecCount es)),
-    ("skipped_tests", Json.num (skippedCount es)),
-    ("crashes", Json.arr ((crashesOf es).map (fun s => Json.str (strOf s))).toArray),
-    ("modelled", Json.arr ((checks.map (fun c => Json.str (strOf c.id))).toArray)),
-    ("visits", Json.num (visits tree).length)]
-
-def opNosec (j : Json) : Except String Json := do
-  let t ← getStr j "text"
-  match Nosec.parse Gen.charClasses Gen.registry t.toList with
-  | none => return Json.null
-  | some ids => return Json.arr (ids.map (fun s => Json.str (strOf s))).toArray
-
-def opFnmatch (j : Json) : Except String Json := do
-  let n ← getStr j "name"
-  let p ← getStr j "pat"
-  return Json.bool (Glob.fnmatch n.toList p.toList)
-
-def opCandidate (j : Json) : Except String Json := do
-  let n ← getStr j "s"
-  return Json.bool (Plugins.isCandidate n.toList)
+/-- all registered ops; each area appends its own list here -/
+def allOps : List Op := coreOps
 
 def handle (line : String) : String :=
   match Json.parse line with
   | .error e => (Json.mkObj [("error", Json.str s!"parse: {e}")]).compress
   | .ok j =>
     let op := (j.getObjValAs? String "op").toOption.getD ""
-    let r : Except String Json := match op with
-      | "scan" => opScan j
-      | "nosec" => opNosec j
-      | "fnmatch" => opFnmatch j
-      | "candidate" => opCandidate j
-      | _ => .error s!"unknown op {op}"
+    let r : Except String Json := match allOps.find? (·.1 == op) with
+      | some (_, f) => f j
+      | none => .error s!"unknown op {op}"
     match r with
     | .ok v => v.compress
     | .error e => (Json.mkObj [("error", Json.str e)]).compress
